@@ -484,6 +484,8 @@ pub fn run(o: &Opts) -> i32 {
               gen.push(DefEntry { name: "span".into(), def: Rc::new(Def::Quantity { expr: ExprString(rink_core::loader::gnu_units::parse_expr(&mut it)) }), doc: Some("the quantity span".into()), category: None }); }
             // a unit and a prefix of one name, and a prefix alias that refers to the prefix
             gen.push(unit("twin", "3 m")); gen.push(mkp("twin", "1000", false)); gen.push(mkp("tw", "twin", false)); gen.push(unit("abtwin", "2 twm")); gen.push(unit("zztwin", "2 twinm + 1 twin"));
+            // the plural of a one-letter unit, used by a name that sorts before it
+            gen.push(unit("z", "3 m")); gen.push(unit("batch", "12 zs"));
             // an identifier in an exponent, defined under a name that sorts after its user
             gen.push(unit("aexp", "2^zzexp m")); gen.push(unit("zzexp", "3")); gen.push(unit("aexp2", "(3 m)^(zzexp - 1)"));
             // a name that is both prefix + unit and the plural of another unit (`ks` = k + s, not the plural of the unit k)
@@ -621,6 +623,7 @@ pub fn run(o: &Opts) -> i32 {
                 (format!("parens-{}", n), format!("m !\nfoo {}1 m{}\nbar 2 foo\n", "(".repeat(n), ")".repeat(n))),
                 (format!("blanks-{}", n), format!("m !\nfoo{}1 m\nbar 2 foo\n", " ".repeat(n))),
                 (format!("continuations-{}", n), format!("m !\nfoo 1 {}m\nbar 2 foo\n", "\\\n".repeat(n))),
+                (format!("continuations-crlf-{}", n), format!("m !\r\nfoo 1 {}m\r\nbar 2 foo\r\n", "\\\r\n".repeat(n))),
                 (format!("pow-chain-{}", n), format!("m !\nfoo 2{} m\nbar 2 foo\n", "^1".repeat(n))),
                 (format!("juxt-{}", n), format!("m !\nfoo {}\nbar 2 foo\n", "m ".repeat(n))),
                 (format!("frac-chain-{}", n), format!("m !\nfoo 1{} m\nbar 2 foo\n", " / 2".repeat(n))),
@@ -645,6 +648,8 @@ pub fn run(o: &Opts) -> i32 {
                 more.push((format!("prefix-exp-{}", i), format!("m !\nfoo- {}\nfoom2 3 foom\nok 2 m\n", e)));
             }
             for n in [150usize, 400, 3000, 20000] { more.extend(deep(n)); }
+            // (the lexer-level shapes are cheap: very long runs of them in the quick tier too)
+            more.extend(deep(300_000).into_iter().filter(|(id, _)| id.starts_with("continuations") || id.starts_with("blanks")));
             if o.thorough { more.extend(deep(100_000)); }
             for (id, t) in &more {
                 write_text_scenario(&dir, id, t);
